@@ -110,7 +110,8 @@ def optStep (o : Orc) : Option Step → String
 def dagStr (o : Orc) (d : Dag) : String :=
   let ser := d.allSteps.all Step.serial
   let ev := d.preconds.all condSafe && d.allSteps.all (fun s => s.preconds.all condSafe)
-  "ok;n=" ++ hexOf d.name ++ ";sc=" ++ toString d.starts.length ++ "/" ++ toString d.stops.length ++ "/" ++ toString d.restarts.length
+  let exprs (l : List Str) : String := ",".intercalate (l.map hexOf)
+  "ok;n=" ++ hexOf d.name ++ ";sc=" ++ exprs d.starts ++ "/" ++ exprs d.stops ++ "/" ++ exprs d.restarts
     ++ ";st=" ++ ",".intercalate (d.steps.map (stepStr o))
     ++ ";h=" ++ ",".intercalate [optStep o d.onExit, optStep o d.onSuccess, optStep o d.onFailure, optStep o d.onCancel]
     ++ ";ser=" ++ b01 ser ++ ";ev=" ++ b01 ev
